@@ -224,7 +224,18 @@ class SimpleLoop(Loop[World]):
                 self._current_world.process(dt)
 
             except SwitchWorld as ex:
-                self.switch(ex.world_handle, ex.clear_current, ex.clear_next)
+                # Entering a world releases its pending callbacks (e.g.
+                # on_switch_in), which may in turn ask for a further
+                # switch: serve it as well instead of leaving the loop
+                request = ex
+                while request is not None:
+                    try:
+                        self.switch(request.world_handle,
+                                    request.clear_current,
+                                    request.clear_next)
+                        request = None
+                    except SwitchWorld as further:
+                        request = further
 
     def switch(self, world_handle: Handle[World], clear_current=False,
                clear_next=False):
